@@ -144,11 +144,18 @@ def _delay(when: dawgie.EVENT) -> datetime.timedelta:
             pass
 
         if when.moment.dom is not None:
-            nm = now.month + 1
+            if not 1 <= when.moment.dom <= 31:
+                raise ValueError('dom must be an integer from 1 to 31')
+
+            # the first date from today on with that day of the month; a month
+            # that does not have the day is skipped
+            date = now.date()
+            while date.day != when.moment.dom:
+                date += datetime.timedelta(days=1)
             then = datetime.datetime(
-                year=now.year + (1 if nm == 13 else 0),
-                month=1 if nm == 13 else nm,
-                day=when.moment.dom,
+                year=date.year,
+                month=date.month,
+                day=date.day,
                 hour=when.moment.time.hour,
                 minute=when.moment.time.minute,
                 second=when.moment.time.second,
